@@ -90,7 +90,23 @@ def s_cls(g, depth):
         body += g.ind(mb)
         body.append("}")
         methods[mname] = arity
-    if r.chance(50):
+    pstat = {}
+    q = parent
+    while q is not None:
+        for k, v in q.statics.items():
+            pstat.setdefault(k, v)
+        q = q.parent
+    if pstat and r.chance(60):
+        sname = r.choice(sorted(pstat))
+        sar = pstat[sname]
+        sp = ["x"] if sar else []
+        body.append("#[static]")
+        body.append("fn %s(%s) {" % (sname, ", ".join(sp)))
+        body += g.ind(["return [\"%s.%s via super\", Self, super.%s(%s)%s];" % (name, sname, sname, ", ".join(sp),
+                                                                                  ", super.%s" % sname if r.chance(30) else "")])
+        body.append("}")
+        statics[sname] = sar
+    elif r.chance(50):
         sname = "s%d" % r.range(0, 2)
         sar = r.range(0, 1)
         sp = ["x"] if sar else []
